@@ -17,7 +17,7 @@ import gc
 import weakref
 
 import eqlmc  # noqa: F401
-from entity_query_language import an, entity, set_of, let, symbolic_mode, rule_mode
+from entity_query_language import an, the, infer, entity, set_of, let, symbolic_mode, rule_mode, predicate
 from entity_query_language.symbolic import in_symbolic_mode, SymbolicExpression
 from entity_query_language.enums import EQLMode
 
@@ -106,6 +106,29 @@ def cases(tier, inst):
     for h in histories(initial(), enabled, step, d):
         if h:
             yield h
+    # the same histories (one level shallower) over queries whose evaluation runs OTHER evaluations inside it: the domain
+    # of q1's variable is the lazy result iterator of another query, q2's condition is a user predicate that opens blocks
+    # of its own and evaluates an(...) and the(...) queries in them
+    for h in histories(initial(), enabled, step, d - 1):
+        if h and any(op[0] in "NE" and op not in ENTER for op in h):
+            yield ("@nested",) + h
+
+
+NESTED = {}
+
+
+@predicate
+def has_not_smaller(item):
+    """user code that builds and evaluates queries of its own, in blocks of its own"""
+    with symbolic_mode():
+        v = let(W.Item, NESTED["das"])
+        found = any(True for _ in an(entity(v, v.p >= item.p)).evaluate())
+        v2 = let(W.Item, NESTED["dbs"])
+        same = the(entity(v2, v2.tag == item.tag)).evaluate() is item
+    with rule_mode():
+        v3 = let(W.Item, NESTED["dbs"])
+        made = list(infer(entity(W.Made(a=v3), v3.tag == item.tag)).evaluate())
+    return found and same and len(made) == 1 and isinstance(made[0], W.Made) and made[0].a is item
 
 
 # ---------------------------------------------------------------- the real thing
@@ -155,14 +178,27 @@ def expected_obs(blocks):
 
 
 def run_case(hist, inst):
+    nested = hist[0] == "@nested"
+    full_case = hist
+    if nested:
+        hist = hist[1:]
+
     def body():
         das = [W.Item(p=1, tag="a0"), W.Item(p=2, tag="a1"), W.Item(p=3, tag="a2")]
         dbs = [W.Item(p=1, tag="b0"), W.Item(p=3, tag="b1")]
         with symbolic_mode():
             x = let(W.Item, das)
             y = let(W.Item, dbs)
-            q1 = an(entity(x, x.p >= 1))
-            q2 = an(set_of([x, y], x.p <= y.p))
+            if nested:
+                NESTED.update(das=das, dbs=dbs)
+                w = let(W.Item, das)
+                q0 = an(entity(w, w.p >= 1))
+                x1 = let(W.Item, q0.evaluate())           # a result iterator is a legitimate (lazy) domain
+                q1 = an(entity(x1, x1.p >= 1))
+                q2 = an(entity(y, has_not_smaller(y)))
+            else:
+                q1 = an(entity(x, x.p >= 1))
+                q2 = an(set_of([x, y], x.p <= y.p))
             z = let(W.Item, das)
             q3 = an(entity(z, z.p > 1))
         queries = {1: q1, 2: q2}
@@ -248,7 +284,7 @@ def run_case(hist, inst):
     has_block = any(op in ENTER for op in hist)
     has_iter = any(op[0] in "CNLDE" and op not in ENTER and op not in ("X", "XE") for op in hist)
     res = {"ok": bad is None, "nontrivial": has_block and has_iter, "transitions": trans, "fps": fps,
-           "tags": [f"len={len(hist)}"] + (["evaluation_raised_inside_iterator_step"] if nraised else []) + [f"op={op[0] if op not in ENTER and op not in ('X', 'XE') else op}" for op in set(hist)],
+           "tags": [f"len={len(hist)}"] + (["nested_evaluations"] if nested else []) + (["evaluation_raised_inside_iterator_step"] if nraised else []) + [f"op={op[0] if op not in ENTER and op not in ('X', 'XE') else op}" for op in set(hist)],
            "outcome": None}
     if bad is not None:
         kind, i, op, got, exp = bad
@@ -258,7 +294,8 @@ def run_case(hist, inst):
         for o in hist[:i]:
             s = step(s, o)
         inside = "inside" if s[0] else "outside"
-        res.update(sig=f"{kind}:{op}/{inside}", obs=(f"after step {i + 1} of {list(hist)}", got), exp=exp)
+        res.update(sig=f"{kind}:{op}/{inside}" + ("/nested" if nested else ""),
+                   obs=(f"after step {i + 1} of {list(hist)}", got), exp=exp)
     return res
 
 
@@ -269,6 +306,19 @@ LEGEND = ("SM=enter symbolic_mode()  RM=enter rule_mode()  SMq=enter symbolic_mo
 
 
 def describe(hist, inst):
+    if hist[0] == "@nested":
+        return ("das = [Item(p=1), Item(p=2), Item(p=3)]; dbs = [Item(p=1), Item(p=3)]\n"
+                "@predicate\ndef has_not_smaller(item):\n"
+                "    with symbolic_mode():\n"
+                "        v = let(Item, das); found = any(True for _ in an(entity(v, v.p >= item.p)).evaluate())\n"
+                "        v2 = let(Item, dbs); same = the(entity(v2, v2.tag == item.tag)).evaluate() is item\n"
+                "    with rule_mode(): v3 = let(Item, dbs); made = list(infer(entity(Made(a=v3), v3.tag == item.tag)).evaluate())\n"
+                "    return found and same and len(made) == 1 and made[0].a is item\n"
+                "with symbolic_mode(): w = let(Item, das); q0 = an(entity(w, w.p >= 1)); x1 = let(Item, q0.evaluate()); "
+                "q1 = an(entity(x1, x1.p >= 1)); y = let(Item, dbs); q2 = an(entity(y, has_not_smaller(y))); "
+                "z = let(Item, das); q3 = an(entity(z, z.p > 1))\n"
+                f"history: {' ; '.join(hist[1:])}\n# {LEGEND}\n"
+                "# expected after every step: mode == mode of the innermost mode-setting open block (else none)")
     return ("das = [Item(p=1), Item(p=2), Item(p=3)]; dbs = [Item(p=1), Item(p=3)]\n"
             "with symbolic_mode(): x = let(Item, das); y = let(Item, dbs); q1 = an(entity(x, x.p >= 1)); "
             "q2 = an(set_of([x, y], x.p <= y.p)); z = let(Item, das); q3 = an(entity(z, z.p > 1))\n"
